@@ -688,7 +688,7 @@ Proof.
   intros. unfold run_impl, conn_impl, semantic_impl, semantic_body, decimal_impl.
   pose proof (fun W K => si_exec_queries W ss nfinal save K) as HB.
   generalize dependent (exec_queries ss nfinal save). intros body HB.
-  destruct fb; simpl; rewrite si_sem_stmts by (simpl; auto); rewrite HB by (repeat split; simpl; auto); reflexivity.
+  destruct fb; simpl; rewrite si_sem_stmts by (simpl; auto); rewrite HB by (repeat split; simpl; auto 12); reflexivity.
 Qed.
 
 Lemma write_free_exec_queries : forall L ss nfinal save, write_free L (exec_queries ss nfinal save) = true.
